@@ -84,6 +84,63 @@ def rule_key(r):
         roots = _roots(fn, w.args[0], w.lineno) - noise
         r.check(roots <= {"source", "dtype"}, K, "make_dll", "compiled text %s depends on %s" % (pf.unparse(w.args[0]), sorted(roots)),
                 w.lineno, "everything the text depends on is part of the cache name")
+    # ... transitively: the functions that turn the hashed source into the compiled text (convert_type and what it calls in
+    # generate.py) read no module-level value that can differ between two processes or two moments - a module global that
+    # some module of the package rebinds (`generate.PROJECTION = ...` in jitter.py), os.environ, a file.  Such a value
+    # changes the compiled text without changing the library name.
+    import glob as _glob, os as _os
+    rebound = {}
+    for path in sorted(_glob.glob(_os.path.join(pf.REPO, "sasmodels", "*.py"))):
+        m2 = pf.module("sasmodels/" + _os.path.basename(path))
+        for n in ast.walk(m2.tree):
+            tg = []
+            if isinstance(n, ast.Assign):
+                tg = n.targets
+            elif isinstance(n, ast.AugAssign):
+                tg = [n.target]
+            for t in tg:
+                if isinstance(t, ast.Attribute) and isinstance(t.value, ast.Name) and t.value.id == "generate":
+                    rebound.setdefault(t.attr, "%s:%d" % (m2.relpath, n.lineno))
+        if m2.relpath.endswith("/generate.py"):
+            for fq, fdef in m2.functions.items():
+                for n in ast.walk(fdef):
+                    if isinstance(n, ast.Global):
+                        for nm_ in n.names:
+                            rebound.setdefault(nm_, "%s:%s (global statement)" % (m2.relpath, fq))
+    gmod_names = {t.id for st_ in g.tree.body if isinstance(st_, ast.Assign) for t in st_.targets if isinstance(t, ast.Name)}
+    seen, work = set(), []
+    for c in pf.calls_in(fn):
+        cn_ = pf.call_name(c) or ""
+        if cn_.startswith("generate.") and cn_.split(".")[-1] != "tag_source" and g.has(cn_.split(".")[-1]):
+            work.append(cn_.split(".")[-1])
+    n_fn = 0
+    while work:
+        q = work.pop()
+        if q in seen or not g.has(q):
+            continue
+        seen.add(q)
+        fdef = g.func(q)
+        n_fn += 1
+        local = {a.arg for a in fdef.args.args} | {x.id for x in ast.walk(fdef) if isinstance(x, ast.Name) and isinstance(x.ctx, ast.Store)}
+        bad = []
+        for x in ast.walk(fdef):
+            if isinstance(x, ast.Name) and isinstance(x.ctx, ast.Load) and x.id not in local:
+                if x.id in rebound and x.id in gmod_names:
+                    bad.append("%s (rebound at %s)" % (x.id, rebound[x.id]))
+            if isinstance(x, ast.Attribute) and pf.unparse(x) in ("os.environ", "environ"):
+                bad.append("os.environ")
+            if isinstance(x, ast.Call):
+                cn = pf.call_name(x) or ""
+                if cn in ("open", "getmtime", "os.getenv", "getenv") or cn.split(".")[-1] in ("read_text", "load_template"):
+                    bad.append("%s(...)" % cn)
+                if g.has(cn.split(".")[-1]):
+                    work.append(cn.split(".")[-1])
+        r.check(not bad, G, q, "text produced after the cache name is fixed reads only its arguments and constants", fdef.lineno,
+                "pure function of (source, dtype)" if not bad else
+                "reads %s: the compiled text then depends on a value that is not part of the library name, so builds made "
+                "under different values share one cache entry" % ", ".join(sorted(set(bad))))
+    if n_fn < 2:
+        raise AnalysisError("make_dll: conversion pipeline after the cache name not found")
     # dll_name carries the bits
     dn = mod.func("dll_name")
     txt = pf.unparse(dn)
